@@ -62,13 +62,18 @@ def make_sim_random(base_cls, run):
             run.clock.ns += run.draw_cost_ns
             v = super().random()
             if run.buggify_p and run.fault_rng.random() < run.buggify_p:
-                f = sys._getframe(1)
-                site = f"{f.f_code.co_name}:{f.f_lineno}"
-                if site in run.buggify_sites or (len(run.buggify_sites) < run.buggify_max_sites
-                                                  and run.fault_rng.random() < 0.3):
+                site, _caller = _call_site()
+                fn = site.split(":")[1] if ":" in site else site
+                if run.buggify_funcs is not None:
+                    hit = fn in run.buggify_funcs
+                else:
+                    hit = site in run.buggify_sites or (len(run.buggify_sites) < run.buggify_max_sites
+                                                        and run.fault_rng.random() < 0.3)
+                if hit:
                     run.buggify_sites.add(site)
                     v = run.fault_rng.choice([0.0, 1.0 - 2.0 ** -53, 0.5, 2.0 ** -53])
                     run.buggified += 1
+            run.last_random_draw = v
             if run.draw_log is not None:
                 site, caller = _call_site()
                 run.draw_log.append((site, caller, "random", repr(v)))
@@ -105,6 +110,8 @@ class PipelineRun:
         self.buggify_p = case.get("buggify_p", 0.0)
         self.buggify_sites: set[str] = set()
         self.buggify_max_sites = 3
+        self.buggify_funcs = set(case["buggify_funcs"]) if case.get("buggify_funcs") else None
+        self.last_random_draw = None
         self.buggified = 0
         self.exec_log = [] if case.get("log_execs") else None
         self.timeout_p = case.get("timeout_p", 0.0)
